@@ -2,7 +2,7 @@
    in Props.v.  All by vm_compute.  Witnesses about cfg_snapshot / drain = false describe the
    historical snapshot 75ee8d3 (repaired in /repo); the others describe /repo as it stands. *)
 From Coq Require Import ZArith List Bool Arith Lia.
-From PAFC15 Require Import Model Proofs1 Proofs2 Proofs3.
+From PAFC15 Require Import Model Proofs1 Proofs2 Proofs3 Proofs4.
 Import ListNotations.
 
 (* ---------- historical: a + (b + c) held [b; c; a] ---------- *)
@@ -151,3 +151,45 @@ Lemma free_own_legacy_refuted :
   exists its default own free,
     fitted_models cfg_round1 KFree its default own free <> modify_free_own free default own its.
 Proof. exists w_free_own_items, [0; 1; 2], [[3; 1; 4]], [1]. vm_compute. discriminate. Qed.
+
+(* ---------- the same analysis written more than once: a + b + a, a + (b + a), (a + b) + (a + b), sum([c, c, c]) ---------- *)
+Definition w_aba : expr := Add (Add (Leaf 0 false) (Leaf 1 false)) (Leaf 0 false).
+Definition w_a_ba : expr := Add (Leaf 0 false) (Add (Leaf 1 false) (Leaf 0 false)).
+Definition w_abab : expr := Add (Add (Leaf 0 false) (Leaf 1 false)) (Add (Leaf 0 false) (Leaf 1 false)).
+Definition w_ccc : expr := Add (Add (Leaf 2 false) (Leaf 2 false)) (Leaf 2 false).
+Example w_repeated_members :
+  map (fun e => map item_id (items_of (eval cfg_now e))) [w_aba; w_a_ba; w_abab; w_ccc]
+  = [[0; 1; 0]; [0; 1; 0]; [0; 1; 0; 1]; [2; 2; 2]].
+Proof. vm_compute. reflexivity. Qed.
+Example w_repeated_hyps : forallb (fun e => nofree e && negb (is_leaf e) && negb (any_model (leaves e))) [w_aba; w_a_ba; w_abab; w_ccc] = true.
+Proof. vm_compute. reflexivity. Qed.
+Example w_repeated_free_indexed :
+  eval cfg_now (Free w_aba) = VComb KFree [IIdx 0 false 0; IIdx 1 false 1; IIdx 0 false 2].
+Proof. vm_compute. reflexivity. Qed.
+(* analyses 1, 10 (w_ev: x -> a * x): a + b + a on 2 is 2 + 20 + 2, serially and on two cores; 2 occurrences of a *)
+Example w_repeated_serial : serial w_ev [1; 10; 1] 2%Z = RVal 24.
+Proof. vm_compute. reflexivity. Qed.
+Example w_repeated_weighted : weighted Nat.eq_dec w_ev 2%Z [1; 10; 1] (nodup Nat.eq_dec [1; 10; 1]) = 24%Z
+                              /\ count_occ Nat.eq_dec [1; 10; 1] 1 = 2 /\ existsb (raises w_ev 2%Z) [1; 10; 1] = false.
+Proof. vm_compute. repeat split; reflexivity. Qed.
+Example w_repeated_pool :
+  map out_ans (snd (run w_ev w_vis w_modf true true [1; 10; 1] st_init
+                        [OEval 2%Z []; OCores 2; OEval 2%Z [[false; true]]; OCores 1; OEval 2%Z []; OCores 3; OEval 2%Z []]))
+  = [Some (RVal 24); Some (RVal 24); Some (RVal 24); Some (RVal 24)].
+Proof. vm_compute. reflexivity. Qed.
+(* a sum over the distinct analyses (dict / set keyed by the analysis) gives 22 *)
+Example w_repeated_dedup : total w_ev (nodup Nat.eq_dec [1; 10; 1]) 2%Z = 22%Z.
+Proof. vm_compute. reflexivity. Qed.
+(* free parameter 0 of the model [0; 1] over a + b + a: three copies of prior 0 and one shared prior 1 *)
+Example w_repeated_free_count :
+  prior_count (fitted_models cfg_now (kind_of (eval cfg_now (Free w_aba))) (items_of (eval cfg_now (Free w_aba))) [0; 1] [] [0]) = 4
+  /\ length (free_in [0] [0; 1]) * length (leaves w_aba) + length (shared_in [0] [0; 1]) = 4.
+Proof. vm_compute. split; reflexivity. Qed.
+(* in-place modify_before_fit by 5, once per position: the object written twice has moved by 10 at both positions *)
+Example w_repeated_modify :
+  map (fun m => (item_id (fst m), m_off m)) (map (modf_member 5) (fresh_members (items_of (eval cfg_now w_aba))))
+  = [(0, 10%Z); (1, 5%Z); (0, 10%Z)].
+Proof. vm_compute. reflexivity. Qed.
+Example w_repeated_modify_hyps : In (IPlain 0 false) (items_of (eval cfg_now w_aba)) /\ item_hm (IPlain 0 false) = false
+                                 /\ occurrences (items_of (eval cfg_now w_aba)) (IPlain 0 false) = 2.
+Proof. vm_compute. repeat split. left. reflexivity. Qed.
